@@ -684,6 +684,36 @@ pub fn judge(s: &Setup, ctx: &Ctx) -> Judged {
             return j;
         }
     }
+    // ... and every listed pattern is analysed, over every eligible file of the selected directory:
+    // the findings are those of the per-file detector called directly for each listed pattern
+    // (the model cannot judge a world with an unreadable or unanalysable eligible file: no verdict)
+    // (a name listed twice selects one pattern; how often an entry is repeated is C03's subject, so
+    // both sides are compared as sets)
+    let mut listed: Vec<Pat> = vec![];
+    for p in expected.iter().flat_map(|(_, ps)| ps.iter().copied()) {
+        if !listed.contains(&p) {
+            listed.push(p);
+        }
+    }
+    if let Ok(mut want) = crate::model::expected_findings(&s.spec.world, &want_abs, &listed) {
+        let mut got = crate::pats::sorted(out.maps.flat());
+        want.dedup();
+        got.dedup();
+        if got != want {
+            let (missing, extra) = crate::model::multiset_diff(&want, &got);
+            j.violation = Some((
+                "listed_pattern_findings_differ".into(),
+                format!(
+                    "argv {:?}: analysing {} for the selected patterns must yield the per-file results of exactly those patterns; missing: {}; unexpected: {}",
+                    argv,
+                    want_abs,
+                    crate::model::show_entries(&missing, 4),
+                    crate::model::show_entries(&extra, 4)
+                ),
+            ));
+            return j;
+        }
+    }
     j
 }
 
